@@ -58,6 +58,28 @@ def clears_flag(node):
     return False
 
 
+def prune_irrelevant(stmts, fields):
+    """Leave out compound statements in which nothing writes a definition field, clears the flag, calls a method of self or leaves
+    the function / loop: which of their branches runs cannot matter to the rule, and leaving them out keeps the number of paths small."""
+    out = []
+    for st in stmts:
+        if isinstance(st, (ast.If, ast.For, ast.While, ast.Try, ast.With)):
+            relevant = clears_flag(st) or direct_def_write(st, fields) or self_calls(st) or \
+                any(isinstance(x, (ast.Return, ast.Raise, ast.Continue, ast.Break)) for x in ast.walk(st))
+            if not relevant:
+                continue
+            if isinstance(st, ast.If):
+                new = ast.If(test=st.test, body=prune_irrelevant(st.body, fields) or [ast.Pass()], orelse=prune_irrelevant(st.orelse, fields))
+                ast.copy_location(new, st)
+                for x in new.body + new.orelse:
+                    if not hasattr(x, 'lineno'):
+                        ast.copy_location(x, st)
+                out.append(new)
+                continue
+        out.append(st)
+    return out
+
+
 def self_calls(node):
     out = []
     for n in ast.walk(node):
@@ -97,7 +119,7 @@ def check_invalidation(ctx, cls, fields):
             continue
         try:
             en = paths.Enumerator(limit=4000)
-            P[name] = en.run(f.body, paths.State())
+            P[name] = en.run(prune_irrelevant(f.body, fields), paths.State())
         except AnalysisError:
             P[name] = None
     # must_clear fixpoint
